@@ -152,12 +152,12 @@ func identForms(re *regexp.Regexp, tokenPrefix string) []QuoteFn {
 
 // identifier grammars, restated from the lexer rule files of the repository / the upstream languages
 var (
-	reLogQLLabel  = regexp.MustCompile(`^[a-zA-Z_][a-zA-Z0-9_]*$`)                                       // logql_parser Label_name / Macros_function
-	reTraceQLName = regexp.MustCompile(`^(\.[a-zA-Z_][.a-zA-Z0-9_-]*|[a-zA-Z_][.a-zA-Z0-9_-]*)$`)       // traceql parser Label_name
-	rePromLabel   = regexp.MustCompile(`^[a-zA-Z_][a-zA-Z0-9_]*$`)                                       // PromQL label name
-	rePromMetric  = regexp.MustCompile(`^[a-zA-Z_:][a-zA-Z0-9_:]*$`)                                    // PromQL metric name
-	reGoIdent     = regexp.MustCompile(`^[\p{L}_][\p{L}\p{Nd}_]*$`)                                      // text/scanner, text/template identifiers
-	reRegexpGroup = regexp.MustCompile(`^[a-zA-Z_][0-9a-zA-Z_]*$`)                                       // planner_parser_regexp Ident
+	reLogQLLabel  = regexp.MustCompile(`^[a-zA-Z_][a-zA-Z0-9_]*$`)                                // logql_parser Label_name / Macros_function
+	reTraceQLName = regexp.MustCompile(`^(\.[a-zA-Z_][.a-zA-Z0-9_-]*|[a-zA-Z_][.a-zA-Z0-9_-]*)$`) // traceql parser Label_name
+	rePromLabel   = regexp.MustCompile(`^[a-zA-Z_][a-zA-Z0-9_]*$`)                                // PromQL label name
+	rePromMetric  = regexp.MustCompile(`^[a-zA-Z_:][a-zA-Z0-9_:]*$`)                              // PromQL metric name
+	reGoIdent     = regexp.MustCompile(`^[\p{L}_][\p{L}\p{Nd}_]*$`)                               // text/scanner, text/template identifiers
+	reRegexpGroup = regexp.MustCompile(`^[a-zA-Z_][0-9a-zA-Z_]*$`)                                // planner_parser_regexp Ident
 )
 
 // plain: the string is handed over as it is (URL path / query parameters after URL decoding, protobuf fields).
